@@ -21,27 +21,9 @@ case("F-C", "C09", "self-check-valid",
 case("F-C-mixed", "C09", "self-check-valid",
      "package src\n\ntype Num interface {\n\t~int\n\tString() string\n}\n\ntype Store[K Num] interface {\n\tGet(k K) bool\n}\n", cfg(["Store"]),
      note="self-check instantiates with int, which has no String method")
-case("F-E", "C12", "ident-reserved",
-     "package src\n\ntype Doer interface {\n\tDo(mock int, callInfo string) error\n}\n", cfg(["Doer"]),
-     note="user parameters named mock / callInfo redeclare the receiver and the record variable")
-case("F-E-predeclared", "C12", "name-error",
-     "package src\n\ntype Doer interface {\n\tDo(string int, s string) error\n}\n", cfg(["Doer"]),
-     note="a user parameter named string captures the type name the record struct needs")
 case("F-F", "C12", "record-fields-distinct",
      "package src\n\ntype Doer interface {\n\tDo(id int, Id string) error\n}\n", cfg(["Doer"]),
      note="id and Id both give record field ID")
-case("F-L", "C12", "name-error",
-     "package src\n\ntype Doer[T any] interface {\n\tDo(T int, v T) error\n}\n", cfg(["Doer"], skip_ensure=True),
-     note="a parameter named like the type parameter captures it inside the body")
-case("F-L-generated", "C12", "name-error",
-     "package src\n\ntype MyType struct{ A int }\n\ntype myType struct{ B int }\n\ntype Doer interface {\n\tDo(MyType, *myType) error\n}\n", cfg(["Doer"]),
-     note="the type-derived name myType captures the local type myType")
-case("F-L-blank-tparam", "C12", "name-error",
-     "package src\n\ntype Thing[U any, _ any] interface {\n\tApply(U) error\n}\n", cfg(["Thing"]),
-     note="a blank type parameter is named v by moq; the unnamed parameter of type U is named v as well")
-case("F-S", "C12", "ident-vs-qualifier",
-     "package src\n\nimport sync \"net/url\"\n\ntype Doer interface {\n\tLoad(url int, v *sync.Values) error\n}\n", cfg(["Doer"]),
-     note="net/url is aliased sync in the source; registering the real sync renames it to url after the parameter url was allocated")
 case("F-N", "C16", "goimports-same-imports",
      "package src\n\nimport \"example.com/w/deps/zzz\"\n\ntype Doer interface {\n\tDo(v yaml.Node) error\n}\n", cfg(["Doer"], invoke="foreignabs"),
      extra={"deps/zzz/zzz.go": "package yaml\n\ntype Node struct{ A int }\n"},
